@@ -53,7 +53,9 @@ DEvalFails(j, T, I) ==
                   mother   |-> {<<OneFilter(m.sub), {OneFilter(o) : o \in SeqToSet(m.objs)}>> :
                                     m \in {m \in SeqToSet(j.miss) : m.other}}]
     IN
-    IF ~DiagramWF(T, comps, j.base) THEN {<<"MACHINERY", "diagram-rule-outside-domain">>}
+    IF \E c \in comps : ModOf(j.base, c) \notin T      \* a component that is no module: never a verdict (C13)
+    THEN (IF j.out = "error" THEN {} ELSE {<<"C13", "diagram-with-unknown-component-must-be-an-error">>})
+    ELSE IF ~DiagramWF(T, comps, j.base) THEN {<<"MACHINERY", "diagram-rule-outside-domain">>}
     ELSE IF j.out = "error" THEN {<<"C07", "diagram-rule-raised-an-error">>}
     ELSE (IF Conforms(T, I, comps, deps, j.only, j.base) = exp.pass THEN {}
           ELSE {<<"MACHINERY", "conformance-differs-from-generated-rules">>})
